@@ -755,6 +755,13 @@ func (fr *frame) step(in ssa.Instruction) {
 			it := &mapIter{m: x}
 			if x != nil {
 				it.keys = append([]interface{}{}, x.order...)
+				if e.params["gomap_reverse"] != 0 {
+					// Go promises no iteration order for maps: this variant iterates in reverse insertion order
+					// (code whose result depends on the order differs between the two variants)
+					for i, j := 0, len(it.keys)-1; i < j; i, j = i+1, j-1 {
+						it.keys[i], it.keys[j] = it.keys[j], it.keys[i]
+					}
+				}
 			}
 			fr.put(in, it)
 		case string:
